@@ -32,6 +32,11 @@ def run_one(pid: str, root: str, tier: str, seed: int, write_evidence: bool = Tr
 
 
 def main(argv=None) -> int:
+    try:
+        import signal
+        signal.signal(signal.SIGPIPE, signal.SIG_DFL)
+    except Exception:  # pragma: no cover
+        pass
     ap = argparse.ArgumentParser()
     ap.add_argument("prop")
     ap.add_argument("--tier", default=os.environ.get("VERIF_TIER", "quick"))
